@@ -286,12 +286,13 @@ Proof.
   destruct rq as [|a0 [|a1 [|a2 [|a3 [|? ?]]]]]; simpl in H4; try lia.
   destruct rq' as [|b0 [|b1 [|b2 [|b3 [|b4 [|b5 [|b6 [|b7 [|b8 [|b9 [|b10 [|b11 [|? ?]]]]]]]]]]]]];
     simpl in H12; try lia.
-  cbn [enc_fields app] in H. injection H as _ _ _ _ H.
+  cbn [enc_fields] in H.
+  change [b0; b1; b2; b3; b4; b5; b6; b7; b8; b9; b10; b11]
+    with ([b0; b1; b2; b3] ++ [b4; b5; b6; b7] ++ [b8; b9; b10; b11]) in H.
   rewrite (mpint_unfold p) in H. rewrite <- !app_assoc in H.
-  change (b4 :: b5 :: b6 :: b7 :: b8 :: b9 :: b10 :: b11 :: mpint p' ++ mpint g' ++ mpint e' ++ mpint f' ++ kb)
-    with ([b4; b5; b6; b7] ++ (b8 :: b9 :: b10 :: b11 :: mpint p' ++ mpint g' ++ mpint e' ++ mpint f' ++ kb)) in H.
+  apply app_eq_len in H; [|reflexivity]. destruct H as [_ H].
   apply app_eq_len in H; [|rewrite u32_length; reflexivity]. destruct H as [H _].
-  simpl. rewrite <- H. pose proof (get_u32_u32 (mp_nbytes p) []) as Hg. rewrite app_nil_r in Hg.
+  cbn [skipn firstn]. rewrite <- H. pose proof (get_u32_u32 (mp_nbytes p) []) as Hg. rewrite app_nil_r in Hg.
   symmetry. apply Hg. pose proof (mp_nbytes_nonneg p). unfold mp_ok, B32 in Hp. lia.
 Qed.
 
@@ -331,7 +332,11 @@ Proof.
 Qed.
 
 Lemma mem_false a l : mem a l = false <-> ~ In a l.
-Proof. rewrite <- mem_spec. destruct (mem a l); split; intros; try congruence. exfalso; auto. Qed.
+Proof.
+  rewrite <- mem_spec. destruct (mem a l).
+  - split; [discriminate|]. intros H. exfalso. apply H. reflexivity.
+  - split; [intros _; discriminate|reflexivity].
+Qed.
 
 Definition first_match (client server : list bytes) (a : bytes) : Prop :=
   exists pre post, client = pre ++ a :: post /\ In a server /\ forall x, In x pre -> ~ In x server.
@@ -452,7 +457,7 @@ Theorem client_range ec_ok p x :
   | KECDH _ qs => ec_ok qs = true
   | KRSA _ _ => True
   end.
-Proof. destruct x; simpl; intros H; try lia; [assumption|exact I]. Qed.
+Proof. destruct x; simpl; intros H; try lia; try assumption; exact I. Qed.
 
 Theorem server_range ec_ok p x :
   server_range_ok ec_ok p x = true ->
@@ -462,7 +467,7 @@ Theorem server_range ec_ok p x :
   | KECDH qc _ => ec_ok qc = true
   | KRSA _ _ => True
   end.
-Proof. destruct x; simpl; intros H; try lia; [assumption|exact I]. Qed.
+Proof. destruct x; simpl; intros H; try lia; try assumption; exact I. Qed.
 
 (* the checks admit the degenerate values 1 and p-1 (RFC 8268 section 4 asks for 1 < x < p-1) *)
 Theorem range_admits_degenerate :
